@@ -25,7 +25,7 @@ var byzProductions = []string{
 	"tampered-payload", "tampered-signature", "stripped-signature", "extra-dots", "two-parts", "jws-json", "nested", "empty", "garbage", "whitespace",
 	"aud-absent", "aud-foreign", "aud-near-miss", "aud-array-without", "aud-substring",
 	"nonce-absent", "nonce-foreign", "nonce-empty", "nonce-previous", "other-session-token", "wrong-idp-key",
-	"nonce-number", "nonce-array", "nonce-object", "nonce-null", "nonce-bool",
+	"nonce-number", "nonce-array", "nonce-object", "nonce-null", "nonce-bool", "other-filters-key",
 }
 
 // productions whose token is honestly signed and acceptable on the refresh path (nonce is only
@@ -87,6 +87,18 @@ func byzantineAnswer(p *IdP, ans map[string]any, ch *chainRec, login bool) {
 		forged = SignJWT(foreign, map[string]any{"kid": "evil"}, claims)
 	case "foreign-key-no-kid":
 		forged = SignJWT(foreign, map[string]any{"kid": nil}, claims)
+	case "other-filters-key":
+		// signed with the (published, honest) key of ANOTHER filter's provider of the same deployment
+		var ok *SignKey
+		for _, o := range p.w.IdPs {
+			if o != p {
+				ok = o.signKey()
+			}
+		}
+		if ok == nil {
+			ok = foreign
+		}
+		forged = SignJWT(ok, map[string]any{"kid": key.Kid}, claims)
 	case "wrong-idp-key":
 		// a key of another provider of the same deployment
 		forged = SignJWT(penv.ecKeys[(p.Cur+3)%len(penv.ecKeys)], map[string]any{"kid": key.Kid}, claims)
@@ -263,6 +275,24 @@ func (p *IdP) issued_exp(tok string) (t time.Time) {
 
 func genC02(r *Rng, tier string, idx int) *Plan {
 	p := &Plan{SchedSeed: r.U64(), Mode: "byzantine"}
+	if idx%5 == 4 {
+		// two filters with different static key sets: whatever one filter has validated must not help the other
+		p.Mode = "byzantine-two-filters"
+		p.Spec = genSpec(r, genOpts{Filters: 2, AllowRedis: false, NoDiscovery: true, NoFetch: r.Bool()})
+		p.Spec.Filters[0].Store, p.Spec.Filters[1].Store = "redis", "redis2" // separate stores: isolation is C18's subject
+		id := 0
+		nid := func() int { id++; return id }
+		t := genTarget(r)
+		first := r.Intn(2)
+		p.Ops = append(p.Ops, Op{ID: nid(), Kind: "nav", B: 0, F: first, Path: t}, Op{ID: nid(), Kind: "send", B: 0, F: first, Path: t, S: "own"})
+		other := 1 - first
+		pr := r.Pick([]string{"other-filters-key", "other-filters-key", "foreign-key-same-kid", "aud-foreign", "wrong-idp-key"})
+		p.Ops = append(p.Ops, Op{ID: nid(), Kind: "idp", F: other, Args: map[string]string{"byz": pr, "byz_on": "login"}},
+			Op{ID: nid(), Kind: "nav", B: 1, F: other, Path: t}, Op{ID: nid(), Kind: "send", B: 1, F: other, Path: t, S: "own"},
+			Op{ID: nid(), Kind: "idp", F: other, Args: map[string]string{"byz": "", "byz_on": "both"}},
+			Op{ID: nid(), Kind: "nav", B: 2, F: other, Path: t}, Op{ID: nid(), Kind: "send", B: 2, F: other, Path: t, S: "own"})
+		return p
+	}
 	p.Spec = genSpec(r, genOpts{Filters: 1, AllowRedis: true})
 	p.Spec.HandlerMode = r.Chance(0.25)
 	k := &p.Spec.IdPs[0].Knobs
